@@ -895,6 +895,8 @@ fn eval_str(value: &str, context: &impl ContextView) -> Result<String> {
 
 /// Evaluate attribute value including {{arithmetic}} and ${variable} expressions
 pub fn eval_attr(value: &str, context: &impl ContextView) -> Result<String> {
+    #[cfg(feature = "verif")]
+    crate::verif::attr_eval();
     // Step 1: Replace variables (which may contain element references, for example).
     // Note this is only a single pass, so variables could potentially reference other
     // variables which are resolved in eval_expr - provided they hold numeric values.
